@@ -121,7 +121,7 @@ func c09Precedence(c *Ctx) {
 		return
 	}
 	isCfg := func(v ssa.Value) bool {
-		return DerivesAny(v, false, func(r ssa.Value) bool { return IsFieldLoad(r, "", "decodedConfigHeaders") })
+		return P.DerivesAnyIP(v, func(r ssa.Value) bool { return IsFieldLoad(r, "", "decodedConfigHeaders") })
 	}
 	isCfgClone := func(v ssa.Value) bool {
 		return DerivesOnly(v, false, func(r ssa.Value) bool {
@@ -172,7 +172,7 @@ func c09Precedence(c *Ctx) {
 			}
 		})
 	}
-	c.Floor("O9.1", "guarded config-header merges (uri, uripost)", nGuarded, 2)
+	c.Floor("O9.1", "guarded config-header merges (uri, uripost)", nGuarded, 1)
 	c.Floor("O9.1", "entry-over-config-base merges (jsonline Scan, readArray)", nBase, 2)
 	// raw: the option's headers reach the request only through add-if-absent enrichment
 	for _, t := range []string{"RawAmmo", "Ammo"} {
